@@ -62,6 +62,33 @@ func init() {
 			i.eng.note("override: " + name)
 			return nil
 		},
+		// ExitCode(f): runs f and returns the status passed to os.Exit / log.Fatal
+		// inside it, or -1 if f returned normally.
+		vpkg + "ExitCode": func(fr *frame, args []value) (res value) {
+			defer func() {
+				if r := recover(); r != nil {
+					if c, ok := r.(exitPanic); ok {
+						res = int(c)
+						return
+					}
+					panic(r)
+				}
+			}()
+			call(fr.i, fr, token.NoPos, args[0], nil)
+			return -1
+		},
+		"time.Now": func(fr *frame, args []value) value {
+			return zero(fr.i.ptrType("time", "Time").(*types.Pointer).Elem())
+		},
+		"(time.Time).Format":           func(fr *frame, args []value) value { return "2026-01-01T00:00:00Z" },
+		"golang.org/x/term.IsTerminal": func(fr *frame, args []value) value { return false },
+		"log.Fatalf":                   func(fr *frame, args []value) value { panic(exitPanic(1)) },
+		"log.Fatal":                    func(fr *frame, args []value) value { panic(exitPanic(1)) },
+		"log.Printf":                   noop,
+		"log.SetFlags":                 noop,
+		"(*log.Logger).Printf":         noop,
+		"(*log.Logger).Print":          noop,
+		"log.New":                      func(fr *frame, args []value) value { var c value = structure{}; return &c },
 		// Execs(): program paths handed to os/exec.Command on this path.
 		vpkg + "Execs": func(fr *frame, args []value) value {
 			ol := fr.i.eng.oslog()
